@@ -143,7 +143,8 @@ enum Op {
 #[derive(Serialize, Deserialize, Debug, Clone, PartialEq, Eq, Hash)]
 struct Scenario {
   doc: DocKind,
-  /// 0: root method + reference + service; 1: + undecodable method with a reference; 2: + dangling self-reference
+  /// 0: root method + reference + service; 1: + undecodable method with a reference; 2: + dangling self-reference;
+  /// 3: + a method of ANOTHER DID with fragment #k0 (not storage-backed), listed first and referenced from assertionMethod
   base: u8,
   /// executed with faults off
   setup: Vec<Op>,
@@ -346,6 +347,13 @@ fn base_core_json(did: &str, base: u8) -> Value {
   }
   if base == 2 {
     auth.push(json!(format!("{did}#dangling")));
+  }
+  if base == 3 {
+    // a full method (not a dangling reference) under another DID that shares the fragment the scenarios generate
+    let other = if did == CORE_DID { CORE_OTHER_DID } else { IOTA_OTHER_DID };
+    vm.insert(0, json!({"id": format!("{other}#k0"), "controller": other, "type": "Ed25519VerificationKey2018",
+      "publicKeyMultibase": "z4uQeVj5tqViQh7yWWGStvkEG1Zmhx6uasJtWCJziofM"}));
+    assertion.push(json!(format!("{other}#k0")));
   }
   let mut doc = json!({
     "id": did,
@@ -684,7 +692,7 @@ impl<'a, 'c, 'p, D: TestDoc> Exec<'a, 'c, 'p, D> {
       }
       Op::Sign { target } => {
         let id = self.target_id(target);
-        let frag = id.rsplit_once('#').map(|p| format!("#{}", p.1)).unwrap_or_default();
+        let frag = self.sign_query(&id);
         let doc = &self.doc;
         Res::Sign(guard(|| block_on(doc.create_jws(st, &frag, b"c09 payload", &JwsSignatureOptions::default()))))
       }
@@ -742,8 +750,18 @@ impl<'a, 'c, 'p, D: TestDoc> Exec<'a, 'c, 'p, D> {
   /// thumbprint in 64^3 does — is taken for a full DID URL by the document's query parser and not found; that is
   /// not a storage matter and would make the check depend on the random key.)
   /// create_jws with the faults off + verify_jws: `Err(reason)` if the method cannot be used for signing.
-  fn usable(&self, id: &str) -> Result<(), String> {
+  /// What is handed to `create_jws` for the method `id`: its fragment — unless (base 3) a method of ANOTHER DID in the
+  /// document carries the same fragment: a bare fragment then denotes both, and the full id is the unambiguous query.
+  fn sign_query(&self, id: &str) -> String {
     let frag = id.rsplit_once('#').map(|p| format!("#{}", p.1)).unwrap_or_default();
+    if self.scn.base == 3 && frag == "#k0" {
+      id.to_string()
+    } else {
+      frag
+    }
+  }
+  fn usable(&self, id: &str) -> Result<(), String> {
+    let frag = self.sign_query(id);
     debug_assert!(!self.ctl.armed.get());
     match guard(|| block_on(self.doc.create_jws(&self.st, &frag, b"usable?", &JwsSignatureOptions::default()))) {
       Ok(Ok(jws)) => match guard(|| self.doc.verify(&jws)) {
@@ -1200,6 +1218,13 @@ fn single_op_scenarios(doc: DocKind, kind: u8) -> Vec<(String, Scenario)> {
     ));
     v.push((format!("generate scope={scope:?} fragment=carried-by-dangling-reference"), mk(2, vec![], vec![gen(scope, Fr::Dangling)])));
   }
+  // the requested fragment is also the fragment of a method of another DID in the document (the ids differ: the
+  // operations act on the own one and leave the other alone, whatever fails)
+  for scope in ALL_SCOPES {
+    v.push((format!("generate scope={scope:?} fragment=also-carried-by-a-method-of-another-did"), mk(3, vec![], vec![gen(scope, Fr::Named(0))])));
+  }
+  v.push(("purge general method whose fragment a method of another DID shares".into(), mk(3, vec![gen(Scp::Vm, Fr::Named(0)), Op::Attach { target: Tg::Named(0), rel: 0 }], vec![Op::Purge { target: Tg::Named(0) }])));
+  v.push(("purge embedded method whose fragment a method of another DID shares".into(), mk(3, vec![gen(Scp::Auth, Fr::Named(0))], vec![Op::Purge { target: Tg::Named(0) }])));
   for kt in [Kt::Ed25519Es256, Kt::Bogus] {
     v.push((format!("generate scope=Vm fragment=fresh keytype={kt:?}"), mk(0, vec![], vec![Op::Gen { scope: Scp::Vm, frag: Fr::Named(0), kt }])));
   }
